@@ -92,6 +92,8 @@ public:
   void detach();
   id get_id() const noexcept;
   void swap(sim_thread &o) noexcept { std::swap(rec_, o.rec_); }
+  typedef pthread_t native_handle_type;
+  native_handle_type native_handle();
   static unsigned hardware_concurrency() noexcept { return 16; }
 private:
   void start_(std::function<void()> fn);
@@ -116,20 +118,58 @@ public:
   T exchange(T d, std::memory_order = std::memory_order_seq_cst) noexcept { sim_atomic_event(this, 2); T r = v_.exchange(d); sim_atomic_after(this, 2); return r; }
   bool compare_exchange_strong(T &e, T d, std::memory_order = std::memory_order_seq_cst, std::memory_order = std::memory_order_seq_cst) noexcept { sim_atomic_event(this, 2); bool r = v_.compare_exchange_strong(e, d); sim_atomic_after(this, 2); return r; }
   bool compare_exchange_weak(T &e, T d, std::memory_order = std::memory_order_seq_cst, std::memory_order = std::memory_order_seq_cst) noexcept { sim_atomic_event(this, 2); bool r = v_.compare_exchange_strong(e, d); sim_atomic_after(this, 2); return r; }
-  template <class U = T> U fetch_add(U d, std::memory_order = std::memory_order_seq_cst) noexcept { sim_atomic_event(this, 2); U r = v_.fetch_add(d); sim_atomic_after(this, 2); return r; }
-  template <class U = T> U fetch_sub(U d, std::memory_order = std::memory_order_seq_cst) noexcept { sim_atomic_event(this, 2); U r = v_.fetch_sub(d); sim_atomic_after(this, 2); return r; }
-  template <class U = T> U fetch_or(U d, std::memory_order = std::memory_order_seq_cst) noexcept { sim_atomic_event(this, 2); U r = v_.fetch_or(d); sim_atomic_after(this, 2); return r; }
-  template <class U = T> U fetch_and(U d, std::memory_order = std::memory_order_seq_cst) noexcept { sim_atomic_event(this, 2); U r = v_.fetch_and(d); sim_atomic_after(this, 2); return r; }
+  template <class D> T fetch_add(D d, std::memory_order = std::memory_order_seq_cst) noexcept { sim_atomic_event(this, 2); T r = v_.fetch_add(d); sim_atomic_after(this, 2); return r; }
+  template <class D> T fetch_sub(D d, std::memory_order = std::memory_order_seq_cst) noexcept { sim_atomic_event(this, 2); T r = v_.fetch_sub(d); sim_atomic_after(this, 2); return r; }
+  template <class D> T fetch_or(D d, std::memory_order = std::memory_order_seq_cst) noexcept { sim_atomic_event(this, 2); T r = v_.fetch_or(d); sim_atomic_after(this, 2); return r; }
+  template <class D> T fetch_and(D d, std::memory_order = std::memory_order_seq_cst) noexcept { sim_atomic_event(this, 2); T r = v_.fetch_and(d); sim_atomic_after(this, 2); return r; }
+  template <class D> T fetch_xor(D d, std::memory_order = std::memory_order_seq_cst) noexcept { sim_atomic_event(this, 2); T r = v_.fetch_xor(d); sim_atomic_after(this, 2); return r; }
   operator T() const noexcept { return load(); }
   T operator=(T d) noexcept { store(d); return d; }
-  template <class U = T> U operator++() noexcept { return fetch_add(U(1)) + U(1); }
-  template <class U = T> U operator++(int) noexcept { return fetch_add(U(1)); }
-  template <class U = T> U operator--() noexcept { return fetch_sub(U(1)) - U(1); }
-  template <class U = T> U operator--(int) noexcept { return fetch_sub(U(1)); }
-  template <class U = T> U operator+=(U d) noexcept { return fetch_add(d) + d; }
-  template <class U = T> U operator-=(U d) noexcept { return fetch_sub(d) - d; }
+  template <class U = T> U operator++() noexcept { return fetch_add(1) + 1; }
+  template <class U = T> U operator++(int) noexcept { return fetch_add(1); }
+  template <class U = T> U operator--() noexcept { return fetch_sub(1) - 1; }
+  template <class U = T> U operator--(int) noexcept { return fetch_sub(1); }
+  template <class D> T operator+=(D d) noexcept { return fetch_add(d) + d; }
+  template <class D> T operator-=(D d) noexcept { return fetch_sub(d) - d; }
+  template <class D> T operator|=(D d) noexcept { return fetch_or(d) | d; }
+  template <class D> T operator&=(D d) noexcept { return fetch_and(d) & d; }
+  template <class D> T operator^=(D d) noexcept { return fetch_xor(d) ^ d; }
+  static constexpr bool is_always_lock_free = std::atomic<T>::is_always_lock_free;
   bool is_lock_free() const noexcept { return v_.is_lock_free(); }
 };
+
+class sim_atomic_flag {
+  sim_atomic<bool> f_;
+public:
+  constexpr sim_atomic_flag(bool v = false) noexcept : f_(v) {}   // (also what ATOMIC_FLAG_INIT, i.e. { 0 }, initialises)
+  sim_atomic_flag(const sim_atomic_flag &) = delete;
+  sim_atomic_flag &operator=(const sim_atomic_flag &) = delete;
+  bool test_and_set(std::memory_order = std::memory_order_seq_cst) noexcept { return f_.exchange(true); }
+  void clear(std::memory_order = std::memory_order_seq_cst) noexcept { f_.store(false); }
+  bool test(std::memory_order = std::memory_order_seq_cst) const noexcept { return f_.load(); }
+};
+// the free-function interface
+template <class T> T atomic_load(const sim_atomic<T> *a) noexcept { return a->load(); }
+template <class T> T atomic_load_explicit(const sim_atomic<T> *a, std::memory_order) noexcept { return a->load(); }
+template <class T> void atomic_store(sim_atomic<T> *a, typename std::common_type<T>::type v) noexcept { a->store(v); }
+template <class T> void atomic_store_explicit(sim_atomic<T> *a, typename std::common_type<T>::type v, std::memory_order) noexcept { a->store(v); }
+template <class T> T atomic_exchange(sim_atomic<T> *a, typename std::common_type<T>::type v) noexcept { return a->exchange(v); }
+template <class T> T atomic_exchange_explicit(sim_atomic<T> *a, typename std::common_type<T>::type v, std::memory_order) noexcept { return a->exchange(v); }
+template <class T> bool atomic_compare_exchange_strong(sim_atomic<T> *a, typename std::common_type<T>::type *e, typename std::common_type<T>::type d) noexcept { return a->compare_exchange_strong(*e, d); }
+template <class T> bool atomic_compare_exchange_weak(sim_atomic<T> *a, typename std::common_type<T>::type *e, typename std::common_type<T>::type d) noexcept { return a->compare_exchange_strong(*e, d); }
+template <class T> bool atomic_compare_exchange_strong_explicit(sim_atomic<T> *a, typename std::common_type<T>::type *e, typename std::common_type<T>::type d, std::memory_order, std::memory_order) noexcept { return a->compare_exchange_strong(*e, d); }
+template <class T> bool atomic_compare_exchange_weak_explicit(sim_atomic<T> *a, typename std::common_type<T>::type *e, typename std::common_type<T>::type d, std::memory_order, std::memory_order) noexcept { return a->compare_exchange_strong(*e, d); }
+template <class T, class D> T atomic_fetch_add(sim_atomic<T> *a, D d) noexcept { return a->fetch_add(d); }
+template <class T, class D> T atomic_fetch_sub(sim_atomic<T> *a, D d) noexcept { return a->fetch_sub(d); }
+template <class T, class D> T atomic_fetch_or(sim_atomic<T> *a, D d) noexcept { return a->fetch_or(d); }
+template <class T, class D> T atomic_fetch_and(sim_atomic<T> *a, D d) noexcept { return a->fetch_and(d); }
+template <class T, class D> T atomic_fetch_xor(sim_atomic<T> *a, D d) noexcept { return a->fetch_xor(d); }
+template <class T, class D> T atomic_fetch_add_explicit(sim_atomic<T> *a, D d, std::memory_order) noexcept { return a->fetch_add(d); }
+template <class T, class D> T atomic_fetch_sub_explicit(sim_atomic<T> *a, D d, std::memory_order) noexcept { return a->fetch_sub(d); }
+inline bool atomic_flag_test_and_set(sim_atomic_flag *f) noexcept { return f->test_and_set(); }
+inline bool atomic_flag_test_and_set_explicit(sim_atomic_flag *f, std::memory_order) noexcept { return f->test_and_set(); }
+inline void atomic_flag_clear(sim_atomic_flag *f) noexcept { f->clear(); }
+inline void atomic_flag_clear_explicit(sim_atomic_flag *f, std::memory_order) noexcept { f->clear(); }
 
 // ---- the rest of the standard blocking vocabulary, composed from sim_mutex + sim_condition_variable so that code which
 // uses it (the repository does not; a refactoring might) still blocks inside the simulator and never for real ----
@@ -244,6 +284,31 @@ template <class C, class D> void sim_sleep_until(const std::chrono::time_point<C
 #define sleep_for sim_sleep_for
 #define sleep_until sim_sleep_until
 #define atomic sim_atomic
+#define atomic_flag sim_atomic_flag
+#define atomic_bool sim_atomic<bool>
+#define atomic_char sim_atomic<char>
+#define atomic_schar sim_atomic<signed char>
+#define atomic_uchar sim_atomic<unsigned char>
+#define atomic_short sim_atomic<short>
+#define atomic_ushort sim_atomic<unsigned short>
+#define atomic_int sim_atomic<int>
+#define atomic_uint sim_atomic<unsigned int>
+#define atomic_long sim_atomic<long>
+#define atomic_ulong sim_atomic<unsigned long>
+#define atomic_llong sim_atomic<long long>
+#define atomic_ullong sim_atomic<unsigned long long>
+#define atomic_int8_t sim_atomic<int8_t>
+#define atomic_uint8_t sim_atomic<uint8_t>
+#define atomic_int16_t sim_atomic<int16_t>
+#define atomic_uint16_t sim_atomic<uint16_t>
+#define atomic_int32_t sim_atomic<int32_t>
+#define atomic_uint32_t sim_atomic<uint32_t>
+#define atomic_int64_t sim_atomic<int64_t>
+#define atomic_uint64_t sim_atomic<uint64_t>
+#define atomic_size_t sim_atomic<size_t>
+#define atomic_ptrdiff_t sim_atomic<ptrdiff_t>
+#define atomic_intptr_t sim_atomic<intptr_t>
+#define atomic_uintptr_t sim_atomic<uintptr_t>
 #define condition_variable sim_condition_variable
 #define thread sim_thread
 #endif // __cplusplus
